@@ -77,7 +77,7 @@ _add(
          "frequency*refrac<1000 limit, and for the Bernoulli encoders also above one expected spike per step (clamped); 1-300 steps; intensities in [0,1] with exact zeros and ones), run twice from the "
          "same generator state. Non-trivial: the refractory encoder, or any case with a zero-intensity element; "
          "distinct = (encoder, online, module, dt, refractory, compensation, steps class, zero pattern, rank) abstractions.",
-    required=["shape_dtype_checks", "reproducibility_checks", "zero_intensity_elements", "refractory_gaps_checked", "zero_intensity_element_steps_in_storms", "setter_configured_encoders", "uncompensated_above_compensation_limit", "intensity_tensors_not_row_major", "online_runs_collected_before_use", "setter_vs_constructor_train_comparisons"],
+    required=["shape_dtype_checks", "reproducibility_checks", "zero_intensity_elements", "refractory_gaps_checked", "zero_intensity_element_steps_in_storms", "setter_configured_encoders", "uncompensated_above_compensation_limit", "intensity_tensors_not_row_major", "online_runs_collected_before_use", "setter_vs_constructor_train_comparisons", "negative_zero_intensity_elements"],
     floor={"quick": 200, "thorough": 400},
     text="Held on every generator seed explored: the real encoders are run over a seed sweep and every output is "
          "checked for dtype, shape / slice count, silence of zero-intensity elements, the minimum spike gap of the "
